@@ -93,6 +93,9 @@ def gen_cases(ctx):
         # before clear), 2-4 cores
         for k in range(5):
             cases.append(pause_case(rng, rng.choice(PAUSE_CFGS), [2, 3, 4, 2, 3][k]))
+        # worker-side out-state computations that take 0.3-0.8 s (still in flight when their handler is trashed)
+        for k in range(4):
+            cases.append(slow_case(rng, SLOW_CFGS[k % len(SLOW_CFGS)], [3, 6, 4, 5][k]))
     else:
         names = list(CONFIGS_A)
         for i in range(150):
@@ -102,6 +105,8 @@ def gen_cases(ctx):
                               delay_seed=rng.randrange(10 ** 6), max_delay_ms=rng.choice([0.0, 1.0, 3.0, 3.0])))
         for k in range(40):
             cases.append(pause_case(rng, rng.choice(PAUSE_CFGS), rng.choice([2, 2, 3, 3, 4, 6])))
+        for k in range(16):
+            cases.append(slow_case(rng, SLOW_CFGS[k % len(SLOW_CFGS)], rng.choice([3, 3, 4, 5, 6, 6])))
         namesb = list(CONFIGS_B)
         for i in range(50):
             cases.append(dict(cfg=namesb[i % len(namesb)], scope="B", stream="call", seed=rng.randrange(1, 10 ** 6),
@@ -122,6 +127,18 @@ def pause_case(rng, name, cores):
                                                           ["release", "send", "clear", "wait"]])})
 
 
+SLOW_CFGS = ["dipoles_atom_factors-coulomb_4dipoles", "water_lj_inverted-coulomb-bending_4molecules"]
+SLOW_SPEC = {"prob": 0.3, "per_worker": 1, "min_s": 0.3, "max_s": 0.8}
+
+
+def slow_case(rng, name, cores):
+    """cores >= 3: out-states are computed ahead of time; many handlers without out-state arguments whose events are
+    trashed by every commit."""
+    return dict(cfg=name, scope="A", stream="handler", seed=rng.randrange(1, 10 ** 6), cores=cores,
+                delay_seed=rng.randrange(10 ** 6), max_delay_ms=1.0, timeout=90,
+                slow_out=dict(SLOW_SPEC, seed=rng.randrange(10 ** 6)))
+
+
 def payload(case, mediator):
     cfg = (CONFIGS_A if case["scope"] == "A" else CONFIGS_B)[case["cfg"]]
     p = dict(cfg)
@@ -130,6 +147,8 @@ def payload(case, mediator):
         p.update(cores=case["cores"], delay_seed=case["delay_seed"], max_delay_ms=case["max_delay_ms"])
         if case.get("pause"):
             p["pause"] = case["pause"]
+        if case.get("slow_out"):
+            p["slow_out"] = case["slow_out"]
     return p
 
 
@@ -445,9 +464,24 @@ def run(ctx, cases_override=None):
             "runs with pauses at the workers' synchronisation operations (after release / after send / before clear)":
                 sum(1 for c in cases if c.get("pause")),
             "pauses injected": sum(p["n"] for m_ in multi for p in m_.get("pauses", [])),
+            "runs with slow worker-side out-state computations": sum(1 for c in cases if c.get("slow_out")),
+            "out-state computations prolonged by 0.3-0.8 s (count, total seconds)":
+                [sum(x[1] for m_ in multi for x in m_.get("slowed_out_states", [])),
+                 round(sum(x[2] for m_ in multi for x in m_.get("slowed_out_states", [])) / 1000.0, 1)],
+            "slow out-state specification": SLOW_SPEC,
             "cell-veto probes that hit finding F7": len(f7),
             "tie probe (documentation of the strict-minimum hypothesis, never decides pass/fail)": tie_probe,
         },
+        "blocking_drain_obligation": "the mediator must WAIT for the in-flight out-state of a trashed handler: in the Coq "
+                                     "protocol model (Model/MultiMediator.v, Level B) the only transitions out of stage "
+                                     "out_state_started are receives (mstep ARecv / ABlockRecv; m_trash_one's OSS case is "
+                                     "that blocking pipe.recv()), and theorem channel_safe (Props/C20.v: stage idle or "
+                                     "suspended => pipe empty and worker blocked; an object in the pipe is of the kind "
+                                     "the stage announces) is exactly what a timed-out / skipped drain breaks — such a "
+                                     "mediator action is not among the model's mact, so no new theorem is needed; the "
+                                     "recorded stage log is identical with and without the drain, hence the tie to the "
+                                     "code is the slow-out-state stratum of real runs (out-state computations prolonged "
+                                     "by 0.3-0.8 s in the worker, commits compared with the single-process run)",
         "model_vs_impl_mismatches": len(mism),
         "oracle_failures": len(fails),
         "traces_validated_against_impl": neval,
